@@ -166,6 +166,7 @@ def main():
     except Exception:
         traceback.print_exc()
         return 3
+    bounded_keys = [k for k, con in side.contracts.items() if con.bounded and prop in con.all_props()]
     findings = load_json(os.path.join(HERE, 'known_findings.json'), {'findings': []})['findings']
     obs, funcs, errors, oos = [], [], [], []
     for r in results:
@@ -214,8 +215,11 @@ def main():
     # ---- run-time contract check of the same clauses on the real code (bounded; never counted as proved) -----
     sweep = None
     native_only = []
-    if not a.no_native and results:
-        sweep = native_sweep(a.repo, [r['key'] for r in results if not r['key'].startswith('lemma:')], seed)
+    if not a.no_native and (results or bounded_keys):
+        sweep = native_sweep(a.repo, [r['key'] for r in results if not r['key'].startswith('lemma:')] + bounded_keys, seed)
+        if bounded_keys and (not sweep or sweep.get('status') not in ('clean', 'violated')):
+            print(f"CHECKER-ERROR bounded run-time contract check did not complete: {sweep}")
+            errors.append({'key': 'native', 'error': str(sweep)})
         if sweep and sweep.get('status') == 'violated':
             failing_funcs = {(o['func']) for o, _ in violations}
             for v in sweep['violations']:
@@ -223,7 +227,9 @@ def main():
                     continue
                 if prop not in clause_props(side, v['func'], v['clause']):
                     continue
-                if any(finding_matches(f, prop, {'func': v['func'], 'kind': v['clause'], 'origin': v['what']}) for f in findings):
+                mf = [f for f in findings if finding_matches(f, prop, {'func': v['func'], 'kind': v['clause'], 'origin': v['what'] + ' | ' + v.get('witness', '')})]
+                if mf:
+                    known.append(({'id': f"{v['func']}#{v['clause']}@runtime", 'func': v['func'], 'kind': v['clause']}, mf[0]))
                     continue
                 # attach as the concrete failing input of a failing obligation of the same function, else report on its own
                 attached = False
@@ -268,13 +274,16 @@ def main():
         print(f"UNDECIDED {o['id']}: {o['origin']} ({o['reason']})")
     for r in oos:
         print(f"UNDECIDED {r['key']}: outside the interpreted subset: {r.get('error')}")
-    n_obl = len(obs) - len(known)
+    n_obl = len(obs) - sum(1 for o, _f in known if any(o is x for x in obs))
     # vacuity guards
     vac = []
-    if not results:
+    if not results and not bounded_keys:
         vac.append('no function under contract serves this property')
-    if n_obl + len(known) == 0:
+    if n_obl + len(known) == 0 and not bounded_keys:
         vac.append('zero obligations generated')
+    bounded_calls = sum(v for k, v in ((sweep or {}).get('per_function') or {}).items() if k in bounded_keys and isinstance(v, int))
+    if bounded_keys and not a.no_native and bounded_calls == 0:
+        vac.append('bounded contracts evaluated on zero inputs')
     for r in results:
         if r['status'] == 'ok' and not r['obligations']:
             vac.append(f"{r['key']}: zero obligations")
@@ -299,13 +308,20 @@ def main():
                 trusted.append(f'{k}: contract TRUSTED (body not verified): {con.note}')
     samples = [{'obligation': o['id'], 'origin': o['origin'], 'verdict': o['verdict'], 'route': o['route'],
                 'backend': o['backend'], 'time_s': o['time_s']} for o in (obs[:: max(1, len(obs) // 12)] if obs else [])][:14]
+    only_bounded = bool(bounded_keys) and n_obl + len(known) == 0
     ev = {
-        'property_id': prop, 'tier': tier, 'seed': seed, 'level': 'proof',
+        'property_id': prop, 'tier': tier, 'seed': seed, 'level': 'exploration' if only_bounded else 'proof',
         'coverage': {
+            'evaluations': int((sweep or {}).get('checked') or 0), 'distinct_nontrivial': int(bounded_calls if only_bounded else (sweep or {}).get('checked') or 0),
+            'rule': 'run-time contract check: every clause of the sidecar contract evaluated on the real function for each input of the '
+                    'enumerated domain / witness pool (inputs are distinct by construction; an input is non-trivial when it satisfies the '
+                    'contract precondition, the others are counted under skipped_by_requires)',
+            'bounded_stand_ins': [{'function': k, 'inputs_checked': ((sweep or {}).get('per_function') or {}).get(k), 'note': side.contracts[k].note}
+                                  for k in bounded_keys],
             'obligations': n_obl, 'discharged': len(discharged),
             'checker_cmd': f'python3-vt check.py {prop} --tier {tier}',
             'trusted_base': trusted,
-            'samples': samples,
+            'samples': samples or [{'bounded_contract': k, 'inputs_checked': ((sweep or {}).get('per_function') or {}).get(k)} for k in bounded_keys],
             'functions_under_contract': funcs,
             'obligations_by_route': by_route, 'backends': backends,
             'solver_time_s': round(sum(o['time_s'] for o in obs), 3),
